@@ -23,6 +23,7 @@ type GenWorld struct {
 	relayIP net.IP
 	rand *scriptRand
 	live []*genObj
+	closed []*genObj // closed once by the plan; may be closed again
 	opIdx int
 	busy bool
 	done bool
@@ -136,11 +137,30 @@ func (w *GenWorld) exec(op *Op) {
 			w.results++
 			w.judge(op, o, addr, err, before)
 		}()
+	case "gen_reclose":
+		// Close of an object that is closed already (a deferred Close after an explicit one): legal
+		// for every net.Listener and net.PacketConn, and nobody else's business - the port may
+		// have a new owner by now
+		if len(w.closed) > 0 {
+			o := w.closed[op.A.N%len(w.closed)]
+			w.K.Stats.Probe("gen_close_again")
+			w.busy = true
+			go func() {
+				defer func() { w.busy = false }()
+				if o.pc != nil {
+					_ = o.pc.Close()
+				}
+				if o.ln != nil {
+					_ = o.ln.Close()
+				}
+			}()
+		}
 	case "gen_close":
 		if len(w.live) > 0 {
 			i := op.A.N % len(w.live)
 			o := w.live[i]
 			w.live = append(w.live[:i], w.live[i+1:]...)
+			w.closed = append(w.closed, o)
 			w.busy = true
 			go func() {
 				defer func() { w.busy = false }()
